@@ -509,14 +509,20 @@ class HostConnection(object):
         log.debug("Replacing connection (%s) to %s", id(connection), self.host)
         try:
             conn = self._session.cluster.connection_factory(self.host.endpoint, on_orphaned_stream_released=self.on_orphaned_stream_released)
-            if self._keyspace:
-                conn.set_keyspace_blocking(self._keyspace)
-            with self._lock:
-                if self.is_shutdown:
-                    # shutdown() ran while we were connecting and will not see this connection
-                    conn.close()
-                    return
-                self._connection = conn
+            while True:
+                keyspace = self._keyspace
+                if keyspace:
+                    conn.set_keyspace_blocking(keyspace)
+                with self._lock:
+                    if self.is_shutdown:
+                        # shutdown() ran while we were connecting and will not see this connection
+                        conn.close()
+                        return
+                    if keyspace == self._keyspace:
+                        self._connection = conn
+                        break
+                    # the session switched keyspace while this connection was selecting the
+                    # previous one; the switch could not see the connection, so apply it here
         except Exception:
             log.warning("Failed reconnecting %s. Retrying." % (self.host.endpoint,))
             self._session.submit(self._replace, connection)
@@ -554,10 +560,14 @@ class HostConnection(object):
                 conn.close()
 
     def _set_keyspace_for_all_conns(self, keyspace, callback):
-        if self.is_shutdown or not self._connection:
-            # nothing to switch right now: remember the keyspace for the connection
-            # _replace() opens later, and still complete the caller's operation
+        with self._lock:
+            # _replace() publishes a connection only if it has selected the keyspace
+            # that is current under this lock
             self._keyspace = keyspace
+            connection = None if self.is_shutdown else self._connection
+        if not connection:
+            # nothing to switch right now: the remembered keyspace is selected by the
+            # connection _replace() opens later; still complete the caller's operation
             callback(self, [])
             return
 
@@ -566,8 +576,7 @@ class HostConnection(object):
             errors = [] if not error else [error]
             callback(self, errors)
 
-        self._keyspace = keyspace
-        self._connection.set_keyspace_async(keyspace, connection_finished_setting_keyspace)
+        connection.set_keyspace_async(keyspace, connection_finished_setting_keyspace)
 
     def get_connections(self):
         c = self._connection
